@@ -156,7 +156,13 @@ def rulesOracleStep (o : RulesOr) (toks : List String) : RulesOr × String :=
     | some c, some b =>
       let agg := rest == ["agg"]
       let want := votesB k o.sst.store o.sst.lock c b agg
+      -- chained / simplified HotStuff abstain when the block a vote obliges them to lock on is unknown
+      let lockKnown := match k, justified o.sst.store b with
+        | .fast, _ => true
+        | _, none => true
+        | _, some j => j.qcHash == 0 || (o.sst.store j.qcHash).isSome
       if rhs == [toString want] then (o, "pass")
+      else if rhs == ["false"] && !lockKnown then (o, "pass")
       else if rhs == ["false"] then
         -- refused although the published condition holds
         let target : Option Block := match k, agg with
